@@ -128,6 +128,20 @@ def groups(frags, n):
             ("a20", [f, "m argv 20", "m read 1", "m argv 20", "m len"]), ("A20", [f, "m args 20", "m args 20 nomem", "m args 00 nomem"])]
 
 
+# second exhaustive alphabet: comment end (newline), backslash before a quote, single quote — the characters that
+# drive the two fragment-advance paths of mpt_memtok (main loop / comment skip) and nextSpace of message_argv.c
+ALPHA2 = [0x20, 0x0a, 0x5c, 0x27, 0x23, 0x61]
+TOKS2 = [("20", "23", "27"), ("null", "23", "27"), ("20", "23", "2722"), ("0a", "23", "27"), ("20", "null", "27"),
+         ("61", "23", "null"), ("5c", "23", "27"), ("200a", "2361", "275c")]
+
+
+def scan_group(frags):
+    f = "m frags " + frags
+    ops = [f] + ["m tok %s %s %s" % t for t in TOKS2]
+    ops += ["m argv 20", "m read 1", "m argv 20", "m len", f, "m args 20", f, "m argv 0a", "m argv 0a", f, "m args 5c", "m dhash"]
+    return ops
+
+
 def all_strings(n):
     return itertools.product(ALPHA, repeat=n)
 
@@ -148,6 +162,11 @@ def _scripts(tier, seed, scale=1):
             for nm, fr in fraglists(bytes(s), 2 if n <= 3 else 1):
                 for tag, ops in groups(fr, n):
                     out.append(("ex:%s:%s" % (nm, tag), ops))
+    for n in range(0, 4 if tier == "quick" else 5):
+        for s in itertools.product(ALPHA2, repeat=n):
+            for nm, fr in fraglists(bytes(s), 2 if n <= 3 else 1):
+                out.append(("ex2:%s" % nm, scan_group(fr)))
+    out.append(("guards", ["m guards", "m frags 61,-,62", "m guards", "m len"]))
     # seeded samples of the next scopes (length 4 with two empty fragments; thorough: length 5 as well)
     r = gen.rng(id, tier, seed, "sample")
     nsample = (400 if tier == "quick" else 3000) * scale
